@@ -794,14 +794,24 @@ class netcdf_indexer:
                     data = data * scale_factor
                     self._copy = False
                 else:
-                    data = data.astype(scale_factor.dtype)
+                    # No arithmetic is needed, but the data are still
+                    # given the data type that it would have produced
+                    # (casting to the attribute's own data type could
+                    # change the values, which the netCDF4 library
+                    # leaves as they are)
+                    data = data.astype(
+                        np.result_type(data.dtype, scale_factor.dtype)
+                    )
         elif add_offset is not None:
             # add_offset with no scale_factor
             if add_offset != 0.0:
                 data = data + add_offset
                 self._copy = False
             else:
-                data = data.astype(np.array(add_offset).dtype)
+                # As for a scale_factor of 1 with no add_offset
+                data = data.astype(
+                    np.result_type(data.dtype, add_offset.dtype)
+                )
 
         return data
 
